@@ -410,6 +410,9 @@ func genC(transports []string) func(t *rapid.T) CCase {
 			c.Resp.Encoding = "deflate"
 		}
 		c.Resp.Knobs.TrailersOnly = rapid.Bool().Draw(t, "trailersOnly")
+		// the peer may also compress what ends its response: the final
+		// end-of-stream / trailer frame, or a unary Connect error document
+		c.Resp.Knobs.CompressEnd = rapid.IntRange(0, 2).Draw(t, "compressEnd") == 0
 		c.Cfg = prog.Config{Protocol: c.Resp.Protocol, Codec: c.Resp.Codec, Kind: c.Resp.Kind, CAccept: []string{"deflate"}}
 		c.Cfg.CSend = rapid.SampledFrom([]string{"", "gzip", "deflate"}).Draw(t, "csend")
 		c.Cfg.CMin = rapid.SampledFrom([]int{0, 100}).Draw(t, "cmin")
